@@ -159,7 +159,8 @@ def _node(draw, nsites):
     typ = draw(st.sampled_from(["VM"] * 7 + ["Container"] + ["Switch"] * 2))
     site = draw(st.integers(0, nsites - 1))
     if typ == "Switch":
-        return {"site": site, "type": typ, "caps": None, "comps": []}
+        # a switch may be given capacities after it was added (add_switch takes none): they are requested too
+        return {"site": site, "type": typ, "caps": draw(st.one_of(st.none(), st.none(), _caps())), "comps": []}
     comps = draw(st.lists(_model, min_size=0, max_size=2))
     if draw(st.integers(0, 3)):      # 3 of 4 nodes carry at least one two-port dedicated NIC (attachable everywhere)
         comps.insert(draw(st.integers(0, len(comps))), draw(_nic2))
@@ -218,14 +219,14 @@ def _resolve(case):
         site = SITES[int(nd.get("site", 0)) % len(SITES)]
         name = f"nd{i}"
         rec = {"name": name, "site": site, "type": typ, "caps": None, "comps": []}
+        caps = nd.get("caps")
+        if caps:
+            rec["caps"] = {f: int(caps[f]) for f in ("core", "ram", "disk") if caps.get(f)}
         if typ == "Switch":
             for p in range(1, SWITCH_PORTS + 1):
                 ports.append({"key": ("n", i, None, f"p{p}"), "unit": ("n", i), "site": site, "kind": "sw",
                               "ded": True})
         else:
-            caps = nd.get("caps")
-            if caps:
-                rec["caps"] = {f: int(caps[f]) for f in ("core", "ram", "disk") if caps.get(f)}
             for j, model in enumerate(nd.get("comps") or []):
                 ctype, plist = MODELS[model]
                 cname = f"c{j}"
@@ -336,6 +337,8 @@ def _build(plan, seq):
             nd = plan["nodes"][k]
             if nd["type"] == "Switch":
                 n = t.add_switch(name=nd["name"], site=nd["site"], nports=SWITCH_PORTS)
+                if nd["caps"] is not None:
+                    n.capacities = Capacities(**nd["caps"])
                 got = {i.name: i for i in n.interface_list}
                 for p in range(1, SWITCH_PORTS + 1):
                     ifaces[("n", k, None, f"p{p}")] = got[f"p{p}"]
